@@ -646,6 +646,12 @@ func (r *reporter) flush(mets []m3thrift.Metric) []m3thrift.Metric {
 	})
 	if err != nil {
 		r.numWriteErrors.Inc()
+		// The client gives up on the first error without flushing: drop what
+		// it has written so far, or it would be sent in front of (and could
+		// keep refusing) every later batch.
+		if d, ok := r.client.Transport.(interface{ Discard() }); ok {
+			d.Discard()
+		}
 	}
 
 	// n.b. In the event that we had allocated additional tag storage in
